@@ -8,6 +8,7 @@ import Cbor.Gen.Streaming
 import Cbor.Gen.Unicode
 import Cbor.Gen.HeaderSize
 import Cbor.Gen.Accessors
+import Cbor.Gen.Accessors2
 /-! Driver operations over the *generated* definitions (validates the translator against the compiled C). -/
 namespace Drv
 open Gen
@@ -219,12 +220,29 @@ def opACC (fn : String) (r : ItemRec) (v : Nat) : Option String :=
   | "cbor_set_bool" => accOut r (cbor_set_bool r (v != 0)) (cbor_set_bool.ok r (v != 0))
   | "cbor_mark_uint" => accOut r (cbor_mark_uint r) (cbor_mark_uint.ok r)
   | "cbor_mark_negint" => accOut r (cbor_mark_negint r) (cbor_mark_negint.ok r)
+  -- float getters / setters: `float` / `double` values are IEEE-754 bit patterns (printed / given in decimal)
+  | "cbor_float_get_float2" => accOut r (cbor_float_get_float2 r) (cbor_float_get_float2.ok r)
+  | "cbor_float_get_float4" => accOut r (cbor_float_get_float4 r) (cbor_float_get_float4.ok r)
+  | "cbor_float_get_float8" => accOut r (cbor_float_get_float8 r) (cbor_float_get_float8.ok r)
+  | "cbor_float_get_float" => accOut r (cbor_float_get_float r) (cbor_float_get_float.ok r)
+  | "cbor_set_float2" => accOut r (cbor_set_float2 r (UInt32.ofNat v)) (cbor_set_float2.ok r (UInt32.ofNat v))
+  | "cbor_set_float4" => accOut r (cbor_set_float4 r (UInt32.ofNat v)) (cbor_set_float4.ok r (UInt32.ofNat v))
+  | "cbor_set_float8" => accOut r (cbor_set_float8 r (UInt64.ofNat v)) (cbor_set_float8.ok r (UInt64.ofNat v))
+  | _ => none
+
+/-- the handle setters: `hb` = the bytes of the buffer handed over, `v` = the length argument -/
+def opACCH (fn : String) (r : ItemRec) (v : Nat) (hb : Array UInt8) : Option String :=
+  match fn with
+  | "cbor_string_set_handle" => accOut r (cbor_string_set_handle r hb (UInt64.ofNat v)) (cbor_string_set_handle.ok r hb (UInt64.ofNat v))
+  | "cbor_bytestring_set_handle" => accOut r (cbor_bytestring_set_handle r hb (UInt64.ofNat v)) (cbor_bytestring_set_handle.ok r hb (UInt64.ofNat v))
   | _ => none
 
 def genOp (ws : List String) : Option String :=
   match ws with
   | ["ACC", fn, ty, a, b, c, rc, h, v] => do
       opACC fn (accItem (← ty.toNat?) (← a.toNat?) (← b.toNat?) (← c.toNat?) (← rc.toNat?) (← parseHex h)) (← v.toNat?)
+  | ["ACC", fn, ty, a, b, c, rc, h, v, hb] => do
+      opACCH fn (accItem (← ty.toNat?) (← a.toNat?) (← b.toNat?) (← c.toNat?) (← rc.toNat?) (← parseHex h)) (← v.toNat?) (← parseHex hb)
   | ["SD", h] => (parseHex h).map opSD
   | ["ENC", fn, v, n] => do opENC fn (← v.toNat?) (← n.toNat?)
   | ["F32ALL", hi] => do some (opF32ALL (← hi.toNat?))
